@@ -1919,7 +1919,13 @@ func (ex *Exec) callSiteAsserts(fr *frame, st *State, cc *ssa.CallCommon, instr 
 // modelled, but what it is started with can be pinned). arg0, arg1, ... name the call's arguments.
 func (ex *Exec) siteAsserts(fr *frame, st *State, cc *ssa.CallCommon, instr ssa.Instruction, kind string, pos string) {
 	// (asserts also apply inside callees executed in place: they are part of the behaviour of the function under check)
-	if ex.topC == nil || len(ex.topC.Asserts) == 0 || instr == nil || ex.noOblige > 0 {
+	if ex.topC == nil || instr == nil || ex.noOblige > 0 {
+		return
+	}
+	if ex.topC.Threads != nil && fr.fn == ex.top && kind == "call" {
+		ex.threadsAsserts(fr, st, cc, pos)
+	}
+	if len(ex.topC.Asserts) == 0 {
 		return
 	}
 	name := ""
@@ -2028,4 +2034,70 @@ func siteCalleeName(f *ssa.Function) string {
 		return o.Name()
 	}
 	return f.Name()
+}
+
+// isStoreHandle: the static types through which a store (database or open transaction) is handed on: the interfaces of
+// aggkit's db/types package, meddler.DB, *sql.Tx / *sql.DB and aggkit's *db.Tx.
+func isStoreHandle(t types.Type) bool {
+	if p, ok := t.(*types.Pointer); ok {
+		t = p.Elem()
+	}
+	n, ok := t.(*types.Named)
+	if !ok || n.Obj().Pkg() == nil {
+		return false
+	}
+	switch n.Obj().Pkg().Path() + "." + n.Obj().Name() {
+	case "github.com/agglayer/aggkit/db/types.Querier", "github.com/agglayer/aggkit/db/types.Txer",
+		"github.com/agglayer/aggkit/db/types.DBer", "github.com/agglayer/aggkit/db/types.SQLTxer",
+		"github.com/russross/meddler.DB", "database/sql.Tx", "database/sql.DB", "github.com/agglayer/aggkit/db.Tx":
+		return true
+	}
+	return false
+}
+
+// threadsAsserts: `threads tx` in the contract of the function under check: at every call of that function, every
+// argument (and the receiver of an interface call) whose static type is a store handle is the parameter tx, whenever
+// tx is not nil - a read or write that goes around the open transaction is a failed obligation.
+func (ex *Exec) threadsAsserts(fr *frame, st *State, cc *ssa.CallCommon, pos string) {
+	cl := ex.topC.Threads
+	name := "dyn"
+	if cc.IsInvoke() {
+		name = cc.Method.Name()
+	} else if f := cc.StaticCallee(); f != nil {
+		name = siteCalleeName(f)
+	}
+	check := func(a ssa.Value, what string) {
+		if !isStoreHandle(a.Type()) {
+			return
+		}
+		v, ok := st.vals[a]
+		if !ok {
+			if k, isConst := a.(*ssa.Const); isConst {
+				v = ex.val(st, k)
+			} else {
+				return
+			}
+		}
+		ctx := ex.ctxFor(fr, st, nil)
+		if _, isParam := ctx.vars[ex.topC.ThreadsParam]; !isParam {
+			// a handle the function opens itself (tx, err := db.NewTx(...)): the clause speaks about the calls made
+			// once it exists
+			lv, ok := ctx.localName(ex.topC.ThreadsParam)
+			if !ok {
+				return
+			}
+			ctx.vars[ex.topC.ThreadsParam] = lv
+		}
+		ctx.vars["argH"] = tv{v, a.Type()}
+		g := ex.evalBool(ctx, cl)
+		if o := ex.oblige(st, fmt.Sprintf("threads[%s][call:%s %s]", ex.topC.ThreadsParam, name, what), cl.Text, g, pos); o != nil {
+			o.Clause = cl
+		}
+	}
+	for ai, a := range cc.Args {
+		check(a, fmt.Sprintf("arg%d", ai))
+	}
+	if cc.IsInvoke() {
+		check(cc.Value, "recv")
+	}
 }
